@@ -7,7 +7,7 @@
    Heights are tracked per "segment": a variadic region (startVariadic ... callVariadic) opens a new
    segment above a marker; the count of a segment is exact until a spread pushes an unknown number of
    values, after which it is a lower bound ([sx = false]).  Block/function locals living on the stack
-   are counted separately ([loc]).  A try frame remembers the shape at the [try] instruction, which is
+   are tracked in [aux].  A try frame remembers the shape at the [try] instruction, which is
    what handleThrow / leaveTry restore. *)
 From Coq Require Import List Arith ZArith Bool Lia.
 Import ListNotations.
@@ -16,11 +16,13 @@ Inductive shape :=
 | SNorm (pops pushes : nat)                 (* falls through; may throw *)
 | SJump (off : Z)
 | SCond (off : Z) (pops pfall pjump : nat)  (* conditional jump: pops, then pushes pfall / pjump *)
+| SOptJump (off : Z) (pops pfall pjump : nat) (* jopt / joptc: jumps iff the top is null/undefined and then leaves undefined on top *)
 | STry (coff foff : nat)                    (* catch / finally offsets, 0 = absent *)
 | SLeaveTry | SEnterFinally | SLeaveFinally
 | SThrow (pops : nat)                       (* always throws *)
 | SRet                                      (* function return *)
-| SEnter (pops ss : nat)                    (* pops operands, then allocates ss stack locals *)
+| SEnter (adopt : bool) (pops ss : nat)     (* pops operands, then allocates ss stack locals; adopt: the block may
+                                              also own the operand below it (catch parameter, switch discriminant) *)
 | SLeave (ss : nat)                         (* releases ss stack locals *)
 | SStartVar | SSpread | SCallVar (minargs : nat) | SEndVar
 | SUnknown.
@@ -28,23 +30,32 @@ Inductive shape :=
 (* MGlobal: runs to the end of the code with an empty operand stack (global and eval code);
    MInit: class field initialiser, entered with the instance as its only operand and left the same way
    (func.go _initFields); MFunc: function body: the `this` slot stack[sb] is the only operand at entry (the
-   prologue may peek it: initStash right after enterFunc), left by ret with at least the result above it and no
-   variadic marker below (ret resets sp to the frame base, so block locals may still be there) *)
+   prologue may peek it: initStash right after enterFunc), left by ret with exactly: `this`, the
+   slots of the blocks still open (a return does not emit leaveBlock), at most one adopted operand per adopting
+   block, and the result ([ret_ok]) *)
 Inductive mode := MGlobal | MFunc | MInit.
 
 Record seg := mkseg { sn : nat; sx : bool }.
+
+(* auxiliary facts: [x_nul] the value on top of the stack is known to be undefined (it was written by a
+   short-circuiting jopt/joptc and only moved since); [x_blocks] the stack-local blocks entered and not yet
+   left: (number of slots allocated by the enter instruction, may it have adopted one operand) *)
+Record aux := mkX { x_nul : bool; x_blocks : list (nat * bool) }.
+Definition aux0 : aux := mkX false [].
+Definition clr (x : aux) : aux := mkX false (x_blocks x).
+Definition setnul (x : aux) : aux := mkX true (x_blocks x).
 
 Record aframe := mkF {
   f_cpc : option nat;      (* catch handler pc, if the try has one *)
   f_fpc : option nat;      (* finally handler pc, if the try has one *)
   f_fin : bool;            (* finally handler still armed *)
-  f_loc : nat;             (* shape at the try instruction *)
+  f_aux : aux;             (* shape at the try instruction *)
   f_segs : list seg }.
 
-Record astate := mkA { a_loc : nat; a_segs : list seg; a_ts : list aframe }.
+Record astate := mkA { a_aux : aux; a_segs : list seg; a_ts : list aframe }.
 
 Definition set_fin (b : bool) (f : aframe) : aframe :=
-  mkF (f_cpc f) (f_fpc f) b (f_loc f) (f_segs f).
+  mkF (f_cpc f) (f_fpc f) b (f_aux f) (f_segs f).
 
 Definition fin_active (f : aframe) : option nat := if f_fin f then f_fpc f else None.
 
@@ -65,25 +76,33 @@ Definition jtarget (pc : nat) (off : Z) : option nat :=
   let t := (Z.of_nat pc + off)%Z in
   if (0 <=? t)%Z then Some (Z.to_nat t) else None.
 
-(* instructions that do not touch the try stack: list of alternatives (pc', loc', segs');
+(* instructions that do not touch the try stack: list of alternatives (pc', cx', segs');
    None = the instruction would underflow / is ill-placed *)
-Definition alt := (nat * nat * list seg)%type.
+Definition alt := (nat * aux * list seg)%type.
 
-Definition core (sh : shape) (pc loc : nat) (sg : list seg) : option (list alt) :=
+Definition core (sh : shape) (pc : nat) (cx : aux) (sg : list seg) : option (list alt) :=
   match sh with
   | SNorm p q =>
       match pop_top p sg with
-      | Some sg' => Some [(S pc, loc, push_top q sg')]
+      | Some sg' => Some [(S pc, clr cx, push_top q sg')]
       | None => None
       end
   | SJump off =>
       match jtarget pc off with
-      | Some t => Some [(t, loc, sg)]
+      | Some t => Some [(t, cx, sg)]
       | None => None
       end
   | SCond off p pf pj =>
       match pop_top p sg, jtarget pc off with
-      | Some sg', Some t => Some [(S pc, loc, push_top pf sg'); (t, loc, push_top pj sg')]
+      | Some sg', Some t => Some [(S pc, clr cx, push_top pf sg'); (t, clr cx, push_top pj sg')]
+      | _, _ => None
+      end
+  | SOptJump off p pf pj =>
+      (* vm.go jopt / joptc: null or undefined on top => undefined is left on top and the jump is taken *)
+      match pop_top p sg, jtarget pc off with
+      | Some sg', Some t =>
+          if x_nul cx then Some [(t, cx, push_top pj sg')]
+          else Some [(S pc, clr cx, push_top pf sg'); (t, setnul cx, push_top pj sg')]
       | _, _ => None
       end
   | SThrow p =>
@@ -91,38 +110,39 @@ Definition core (sh : shape) (pc loc : nat) (sg : list seg) : option (list alt) 
       | Some _ => Some []
       | None => None
       end
-  | SEnter p ss =>
-      (* stack locals of a block / function are ordinary slots above the current operands: the compiler
-         lets a block adopt operands as locals (catch parameter, switch discriminant: the leaveBlock is
-         then larger than the enterBlock), so locals and operands are counted together *)
+  | SEnter ad p ss =>
+      (* stack locals of a block / function are ordinary slots above the current operands *)
       match pop_top p sg with
-      | Some sg' => Some [(S pc, loc, push_top ss sg')]
+      | Some sg' => Some [(S pc, mkX false ((ss, ad) :: x_blocks cx), push_top ss sg')]
       | None => None
       end
   | SLeave ss =>
+      (* releases the block's slots, including an operand the block adopted (the compiler makes the
+         leaveBlock larger than the enterBlock for a catch parameter / switch discriminant kept on the stack) *)
       match pop_top ss sg with
-      | Some sg' => Some [(S pc, loc, sg')]
+      | Some sg' => Some [(S pc, mkX false (tl (x_blocks cx)), sg')]
       | None => None
       end
-  | SStartVar => Some [(S pc, loc, mkseg 0 true :: sg)]
+  | SStartVar => Some [(S pc, clr cx, mkseg 0 true :: sg)]
   | SSpread =>
       match sg with
-      | s :: r => if 1 <=? sn s then Some [(S pc, loc, mkseg (sn s - 1) false :: r)] else None
+      | s :: r => if 1 <=? sn s then Some [(S pc, clr cx, mkseg (sn s - 1) false :: r)] else None
       | [] => None
       end
   | SCallVar k =>
       match sg with
-      | s :: ((_ :: _) as r) => if k <=? sn s then Some [(S pc, loc, mkseg 1 true :: r)] else None
+      | s :: ((_ :: _) as r) => if k <=? sn s then Some [(S pc, clr cx, mkseg 1 true :: r)] else None
       | _ => None
       end
   | SEndVar =>
-      (* drops the slot below the top: inside a segment (class definitions use it that way), or the
-         variadic marker when the segment holds exactly the call result *)
+      (* drops the slot below the top (the top value itself is kept): inside a segment (class definitions
+         and the optional-chain unwind stubs use it that way), or the variadic marker when the segment holds
+         exactly the call result *)
       match sg with
       | s1 :: r =>
-          if 2 <=? sn s1 then Some [(S pc, loc, mkseg (sn s1 - 1) (sx s1) :: r)]
+          if 2 <=? sn s1 then Some [(S pc, cx, mkseg (sn s1 - 1) (sx s1) :: r)]
           else match r with
-               | s2 :: r' => if (sn s1 =? 1) && sx s1 then Some [(S pc, loc, mkseg (sn s2 + 1) (sx s2) :: r')] else None
+               | s2 :: r' => if (sn s1 =? 1) && sx s1 then Some [(S pc, cx, mkseg (sn s2 + 1) (sx s2) :: r')] else None
                | [] => None
                end
       | [] => None
@@ -132,10 +152,16 @@ Definition core (sh : shape) (pc loc : nat) (sg : list seg) : option (list alt) 
 
 Definition is_core (sh : shape) : bool :=
   match sh with
-  | SNorm _ _ | SJump _ | SCond _ _ _ _ | SThrow _ | SEnter _ _ | SLeave _
+  | SNorm _ _ | SJump _ | SCond _ _ _ _ | SOptJump _ _ _ _ | SThrow _ | SEnter _ _ _ | SLeave _
   | SStartVar | SSpread | SCallVar _ | SEndVar => true
   | _ => false
   end.
+
+(* the height a function's ret must see: `this`, the slots of the blocks still open, possibly one adopted
+   operand per adopting block, and the result *)
+Definition ret_lo (x : aux) : nat := 2 + fold_right (fun b acc => fst b + acc) 0 (x_blocks x).
+Definition ret_hi (x : aux) : nat := ret_lo x + length (filter snd (x_blocks x)).
+Definition ret_ok (x : aux) (sg : seg) : bool := (ret_lo x <=? sn sg) && (sn sg <=? ret_hi x) && sx sg.
 
 (* ---------- boolean equalities ---------- *)
 Definition seg_eqb (a b : seg) : bool := (sn a =? sn b) && Bool.eqb (sx a) (sx b).
@@ -151,11 +177,13 @@ Definition optn_eqb (a b : option nat) : bool :=
   | Some x, Some y => x =? y
   | _, _ => false
   end.
+Definition blk_eqb (a b : nat * bool) : bool := (fst a =? fst b) && Bool.eqb (snd a) (snd b).
+Definition aux_eqb (a b : aux) : bool := Bool.eqb (x_nul a) (x_nul b) && list_eqb blk_eqb (x_blocks a) (x_blocks b).
 Definition aframe_eqb (a b : aframe) : bool :=
   optn_eqb (f_cpc a) (f_cpc b) && optn_eqb (f_fpc a) (f_fpc b) && Bool.eqb (f_fin a) (f_fin b)
-  && (f_loc a =? f_loc b) && list_eqb seg_eqb (f_segs a) (f_segs b).
+  && aux_eqb (f_aux a) (f_aux b) && list_eqb seg_eqb (f_segs a) (f_segs b).
 Definition astate_eqb (a b : astate) : bool :=
-  (a_loc a =? a_loc b) && list_eqb seg_eqb (a_segs a) (a_segs b) && list_eqb aframe_eqb (a_ts a) (a_ts b).
+  aux_eqb (a_aux a) (a_aux b) && list_eqb seg_eqb (a_segs a) (a_segs b) && list_eqb aframe_eqb (a_ts a) (a_ts b).
 Definition amem (s : astate) (l : list astate) : bool := existsb (astate_eqb s) l.
 
 Definition is_leavetry (sh : shape) : bool := match sh with SLeaveTry => true | _ => false end.
@@ -164,9 +192,9 @@ Definition is_leavetry (sh : shape) : bool := match sh with SLeaveTry => true | 
 Definition amap := list (list astate).     (* states per pc, index 0 .. length code *)
 
 Definition catch_state (f : aframe) (lower : list aframe) : astate :=
-  mkA (f_loc f) (push_top 1 (f_segs f)) (f :: lower).
+  mkA (f_aux f) (push_top 1 (f_segs f)) (f :: lower).
 Definition fin_state (f : aframe) (lower : list aframe) : astate :=
-  mkA (f_loc f) (f_segs f) (set_fin false f :: lower).
+  mkA (f_aux f) (f_segs f) (set_fin false f :: lower).
 
 (* every handler an exception raised with try stack [ts] could reach (over-approximation:
    whether the catch / finally of a frame is still armed is not tracked for exception edges) *)
@@ -191,43 +219,43 @@ Definition of_alt (ts : list aframe) (a : alt) : nat * astate :=
 Definition asucc (code : list shape) (md : mode) (m : amap) (pc : nat) (s : astate)
   : option (list (nat * astate)) :=
   let sh := nth pc code SUnknown in
-  if is_core sh then option_map (map (of_alt (a_ts s))) (core sh pc (a_loc s) (a_segs s))
+  if is_core sh then option_map (map (of_alt (a_ts s))) (core sh pc (a_aux s) (a_segs s))
   else match sh with
   | STry c fo =>
       let f := mkF (if 0 <? c then Some (pc + c) else None) (if 0 <? fo then Some (pc + fo) else None)
-                   (0 <? fo) (a_loc s) (a_segs s) in
-      Some [(S pc, mkA (a_loc s) (a_segs s) (f :: a_ts s))]
+                   (0 <? fo) (clr (a_aux s)) (a_segs s) in
+      Some [(S pc, mkA (clr (a_aux s)) (a_segs s) (f :: a_ts s))]
   | SLeaveTry =>
       match a_ts s with
       | f :: lower =>
           match fin_active f with
           | Some fp => Some [(fp, fin_state f lower)]
-          | None => Some [(S pc, mkA (a_loc s) (a_segs s) lower)]
+          | None => Some [(S pc, mkA (a_aux s) (a_segs s) lower)]
           end
       | [] => None
       end
   | SEnterFinally =>
       match a_ts s with
-      | f :: lower => Some [(S pc, mkA (a_loc s) (a_segs s) (set_fin false f :: lower))]
+      | f :: lower => Some [(S pc, mkA (a_aux s) (a_segs s) (set_fin false f :: lower))]
       | [] => None
       end
   | SLeaveFinally =>
       match a_ts s with
       | f :: lower =>
-          let s' := mkA (a_loc s) (a_segs s) lower in
+          let s' := mkA (a_aux s) (a_segs s) lower in
           Some ((S pc, s') :: map (fun p => (S p, s')) (ret_sites code m (set_fin true f :: lower)))
       | [] => None
       end
   | SRet =>
       match md, a_segs s, a_ts s with
-      | MFunc, [sg], [] => if (2 <=? sn sg) && sx sg then Some [] else None
+      | MFunc, [sg], [] => if ret_ok (a_aux s) sg then Some [] else None
       | _, _, _ => None
       end
   | _ => None
   end.
 
 Definition init_state (md : mode) : astate :=
-  mkA 0 [mkseg (match md with MGlobal => 0 | _ => 1 end) true] [].
+  mkA aux0 [mkseg (match md with MGlobal => 0 | _ => 1 end) true] [].
 
 Definition final_ok (md : mode) (s : astate) : bool :=
   match md with
@@ -256,7 +284,7 @@ Definition check (code : list shape) (md : mode) (m : amap) : bool :=
 Definition consistent (m : amap) : bool :=
   forallb (fun l => match l with
                     | [] => true
-                    | s0 :: r => forallb (fun s => (a_loc s =? a_loc s0) && list_eqb seg_eqb (a_segs s) (a_segs s0)) r
+                    | s0 :: r => forallb (fun s => list_eqb seg_eqb (a_segs s) (a_segs s0)) r
                     end) m.
 
 (* ---------- inference of the invariant (untrusted: its result is checked) ---------- *)
@@ -309,7 +337,7 @@ Record cframe := mkCF {
   c_ret : option nat;     (* finallyRet *)
   c_exc : bool }.         (* finally entered by an exception *)
 
-Record cstate := mkC { pc : nat; loc : nat; segs : list seg; frames : list cframe }.
+Record cstate := mkC { pc : nat; cx : aux; segs : list seg; frames : list cframe }.
 
 Inductive outcome := Next (s : cstate) | Done | Escaped | Fault.
 
@@ -323,10 +351,10 @@ Fixpoint unwind (fs : list cframe) : option cstate :=
   | f :: r =>
       let b := base f in
       match (if c_catch f then f_cpc b else None) with
-      | Some c => Some (mkC c (f_loc b) (push_top 1 (f_segs b)) (mkCF b false (c_ret f) (c_exc f) :: r))
+      | Some c => Some (mkC c (f_aux b) (push_top 1 (f_segs b)) (mkCF b false (c_ret f) (c_exc f) :: r))
       | None =>
           match fin_active b with
-          | Some fp => Some (mkC fp (f_loc b) (f_segs b) (mkCF (set_fin false b) false None true :: r))
+          | Some fp => Some (mkC fp (f_aux b) (f_segs b) (mkCF (set_fin false b) false None true :: r))
           | None => unwind r
           end
       end
@@ -348,14 +376,14 @@ Definition step (code : list shape) (md : mode) (ch : choice) (st : cstate) : ou
   if pc st =? len then
     match md, frames st with
     | MFunc, _ => Fault
-    | _, [] => if (loc st =? 0) && list_eqb seg_eqb (segs st) (a_segs (init_state md)) then Done else Fault
+    | _, [] => if aux_eqb (cx st) aux0 && list_eqb seg_eqb (segs st) (a_segs (init_state md)) then Done else Fault
     | _, _ => Fault
     end
   else if len <? pc st then Fault
   else
     let sh := nth (pc st) code SUnknown in
     if is_core sh then
-      match core sh (pc st) (loc st) (segs st) with
+      match core sh (pc st) (cx st) (segs st) with
       | None => Fault
       | Some alts =>
           match pick ch alts with
@@ -369,8 +397,8 @@ Definition step (code : list shape) (md : mode) (ch : choice) (st : cstate) : ou
         | CThrow => do_throw (frames st)
         | _ =>
           let b := mkF (if 0 <? c then Some (pc st + c) else None) (if 0 <? fo then Some (pc st + fo) else None)
-                       (0 <? fo) (loc st) (segs st) in
-          Next (mkC (S (pc st)) (loc st) (segs st) (mkCF b true None false :: frames st))
+                       (0 <? fo) (clr (cx st)) (segs st) in
+          Next (mkC (S (pc st)) (clr (cx st)) (segs st) (mkCF b true None false :: frames st))
         end
     | SLeaveTry =>
         match frames st with
@@ -379,9 +407,9 @@ Definition step (code : list shape) (md : mode) (ch : choice) (st : cstate) : ou
             | CThrow => do_throw (frames st)
             | _ =>
               match fin_active (base f) with
-              | Some fp => Next (mkC fp (f_loc (base f)) (f_segs (base f))
+              | Some fp => Next (mkC fp (f_aux (base f)) (f_segs (base f))
                                     (mkCF (set_fin false (base f)) false (Some (S (pc st))) (c_exc f) :: r))
-              | None => Next (mkC (S (pc st)) (loc st) (segs st) r)
+              | None => Next (mkC (S (pc st)) (cx st) (segs st) r)
               end
             end
         | [] => Fault
@@ -391,7 +419,7 @@ Definition step (code : list shape) (md : mode) (ch : choice) (st : cstate) : ou
         | f :: r =>
             match ch with
             | CThrow => do_throw (frames st)
-            | _ => Next (mkC (S (pc st)) (loc st) (segs st)
+            | _ => Next (mkC (S (pc st)) (cx st) (segs st)
                              (mkCF (set_fin false (base f)) (c_catch f) (c_ret f) (c_exc f) :: r))
             end
         | [] => Fault
@@ -403,21 +431,21 @@ Definition step (code : list shape) (md : mode) (ch : choice) (st : cstate) : ou
             else match ch with
                  | CThrow => do_throw (frames st)
                  | _ => match c_ret f with
-                        | Some t => Next (mkC t (loc st) (segs st) r)
-                        | None => Next (mkC (S (pc st)) (loc st) (segs st) r)
+                        | Some t => Next (mkC t (cx st) (segs st) r)
+                        | None => Next (mkC (S (pc st)) (cx st) (segs st) r)
                         end
                  end
         | [] => Fault
         end
     | SRet =>
         match md, segs st, frames st with
-        | MFunc, [sg], [] => if (2 <=? sn sg) && sx sg then Done else Fault
+        | MFunc, [sg], [] => if ret_ok (cx st) sg then Done else Fault
         | _, _, _ => Fault
         end
     | _ => Fault
     end.
 
-Definition entry_state (md : mode) : cstate := mkC 0 0 (a_segs (init_state md)) [].
+Definition entry_state (md : mode) : cstate := mkC 0 aux0 (a_segs (init_state md)) [].
 Definition entry_ok (md : mode) (st : cstate) : Prop := st = entry_state md.
 
 (* run for at most [fuel] steps under an arbitrary environment [orc] *)
